@@ -296,7 +296,7 @@ func (r *Runner) Step(s Step) *Failure {
 			ns, why := r.Guard(p.D, s)
 			if r.Forced != nil {
 				fw, ok := r.Forced[r.cur]
-				rewriting := fw == "F2" || fw == "F6" || fw == "F10" || fw == "F11"
+				rewriting := fw == "F2" || fw == "F6" || fw == "F10" || fw == "F11" || fw == "gcfree-contract"
 				switch {
 				case ok && !rewriting:
 					// the twin skipped this step: repeat its decision, whatever
